@@ -43,6 +43,8 @@ THEOREMS = [
     "Typedpy.C07.keep_undefined_leak_counterexample",
     "Typedpy.C07.inherited_closed_counterexample",
     "Typedpy.C07.closed_round_trip_example",
+    "Typedpy.C07.closed_tree_round_trip",
+    "Typedpy.C07.open_top_default_keeps_nothing",
     "Typedpy.C07.cache_transparent_nested",
     "Typedpy.C07.history_transparent_nested",
     "Typedpy.C07.cache_nested_example",
